@@ -27,9 +27,14 @@ impl Tier {
         }
     }
     pub fn pick(&self, quick: u32, thorough: u32) -> u32 {
-        match self {
+        let n = match self {
             Tier::Quick => quick,
             Tier::Thorough => thorough,
+        };
+        // development aid: MV_SCALE=0.1 runs a tenth of the cases
+        match std::env::var("MV_SCALE").ok().and_then(|s| s.parse::<f64>().ok()) {
+            Some(f) => ((n as f64 * f) as u32).max(1),
+            None => n,
         }
     }
 }
